@@ -84,9 +84,13 @@ impl<'a> Lexer<'a> {
 
     pub(crate) fn next_token(&mut self) -> Lexeme {
         let start_pos = self.pos;
+        // The end of the input is decided by position, not by the value of the
+        // sentinel: a literal NUL byte in the source is not the end of the file.
+        // It falls through to `ident`, and the parser reports it as an error.
+        let at_end = self.pos >= self.input.len();
         let first = self.bump().unwrap_or(EOF);
         let kind = match first {
-            EOF => Kind::Eof,
+            EOF if at_end => Kind::Eof,
             _ if self.in_path.in_path() => self.path(),
             byte if is_ascii_whitespace(byte) => self.whitespace(),
             b'#' => self.comment(),
